@@ -152,3 +152,7 @@ package utils
 //@   ensures end_reported: implies(old(rpos(e)) == rend(e) && len(p) > 0, err != nil && (err == io.EOF) == !rbad(e))
 //@   ensures truncation_is_an_error: implies(err == io.EOF, e.n <= 0)
 //@   ensures keeps: exInv(e)
+
+// no mutable package-level state (C12, and every property whose plan touches this package)
+//@ property C12
+//@ globals immutable
